@@ -336,6 +336,9 @@ func checkC02Format(c *BuildCase, f string, d *Decoded, table map[string]map[str
 	}
 	gotArch := dm.Arch
 	if f == "deb" && m.Platform != "" && m.Platform != "linux" {
+		if !strings.HasPrefix(gotArch, m.Platform+"-") {
+			vs.add("C02.platform", f, "Architecture %q does not carry the platform %q", gotArch, m.Platform)
+		}
 		gotArch = strings.TrimPrefix(gotArch, m.Platform+"-")
 	}
 	if documented && gotArch != wantArch {
@@ -759,6 +762,12 @@ func TestC02(t *testing.T) {
 		}
 		if c.Meta.Prerelease != "" {
 			labels = append(labels, "prerelease")
+		}
+		// a non-linux platform is only meaningful for deb and rpm (apk and archlinux refuse it; ipk has no notion of it)
+		if rapid.IntRange(0, 5).Draw(rt, "foreign-platform") == 0 {
+			c.Meta.Platform = rapid.SampledFrom([]string{"darwin", "freebsd"}).Draw(rt, "platform")
+			c.Formats = []string{"deb", "rpm", "ipk"}
+			labels = append(labels, "platform:"+c.Meta.Platform)
 		}
 		st.Record(c, nontrivialC02(c), labels...)
 		st.Report(rt, c, checkC02(c, table))
